@@ -144,9 +144,32 @@ def name_failure(unit, d, lines_map, gen_name):
     """turn a Verus diagnostic into a named obligation"""
     msg = d['message']
     kind = classify(msg)
+    own = lambda s: os.path.basename(s['file_name']) == gen_name
+
+    def call_site(s):
+        """a span inside a std macro (panic!, unreachable!, assert!, ...) -> the span of the macro call in the generated file"""
+        macro = None
+        while s is not None and not own(s) and s.get('expansion'):
+            macro = s['expansion'].get('macro_decl_name') or macro
+            s = s['expansion'].get('span')
+        while s is not None and own(s) and s.get('expansion') and s['expansion'].get('span') and own(s['expansion']['span']):
+            macro = s['expansion'].get('macro_decl_name') or macro
+            s = s['expansion']['span']
+        return s, macro
+    panic_macro = None
+    spans = []
+    for s in d['spans']:
+        if not own(s) and s.get('expansion'):
+            t, mac = call_site(s)
+            if t is not None and own(t):
+                t = dict(t, is_primary=s['is_primary'], label=s.get('label'))
+                panic_macro = panic_macro or mac
+                spans.append(t)
+                continue
+        spans.append(s)
+    d = dict(d, spans=spans)
     prim = [s for s in d['spans'] if s['is_primary']]
     sec = [s for s in d['spans'] if not s['is_primary']]
-    own = lambda s: os.path.basename(s['file_name']) == gen_name
 
     def ent(s):
         if not own(s):
@@ -181,9 +204,11 @@ def name_failure(unit, d, lines_map, gen_name):
         cand = [x for x in d['spans'] if (x.get('label') or '').startswith('failed precondition')]
         s = cand[0] if cand else (prim[0] if prim else None)
         if s is not None:
-            callee = 'vstd' if not own(s) else 'prelude'
+            callee = 'vstd' if (not own(s) or panic_macro) else 'prelude'
             txt = s['text'][0]['text'].strip() if s.get('text') else ''
             clause = 'pre:' + re.sub(r'\s+', ' ', txt)[:60]
+            if panic_macro:
+                clause = 'pre:%s is reachable' % panic_macro
     if fn is None:
         # template-level failure (lemma / spec function)
         s = (prim or sec or [None])[0]
